@@ -241,6 +241,10 @@ func buildCall(sym slip.Symbol, args slip.List, p *slip.Printer) (node Node) {
 }
 
 func buildLambda(lam *slip.Lambda, p *slip.Printer) Node {
+	// Use the load form so the documentation string is included.
+	if form, ok := lam.LoadForm().(slip.List); ok && 1 < len(form) {
+		return lambdaFromList(form[1:], p)
+	}
 	ln := Lambda{
 		args: buildDocArgs(lam.Doc.Args, p),
 		List: List{
